@@ -197,6 +197,71 @@ def run(ctx):
         if ci < 1:
             ctx.sample(dict(family=fam, first_ids=pop[:3], text=program(vec, s1, fields), n=len(pop)))
     ctx.note("smallest_log_p_seen", worst)
+    rare_groups(ctx, im, rnd, N)
+    many_salts(ctx, im, rnd)
+
+
+RARE_VECTORS = [["1", "499999", "500000"], ["99999", "1"], ["1", "24999", "25000"], ["500000", "1", "499999"], ["0.00001", "1"],
+                ["1000000", "3", "1000000"]]
+
+
+def rare_groups(ctx, im, rnd, N):
+    """hold-back groups with a share of 1e-6 .. 2e-5: chi-square merges such a cell away, so its count gets an exact binomial
+    test (both tails, 1e-9); a position snapped to a coarse grid (1/100, 1/10 000) gives such a group nothing or far too much"""
+    n = N * 5
+    for ri in range(2 if ctx.quick() else 6):  # per shard
+        vec = RARE_VECTORS[(ri + ctx.shard) % len(RARE_VECTORS)]
+        fam = rnd.choice(["sequential-int", "sequential-str", "uuid-random", "email", "hex-session"])
+        offset = rnd.choice([0, 10**6, 10**9, rnd.randint(0, 10**12)])
+        salt = rnd.choice([None, "holdback", "é", "exp_%d" % rnd.randint(0, 999)])
+        pop = family(fam, rnd, n, offset)
+        text = program(vec, salt, sorted(pop[0]))
+        got, err = assign(im, text, pop)
+        ctx.evaluated(n)
+        if got is None:
+            ctx.violation("evaluation-failed", dict(text=text, family=fam, error=err), mechanism="C04/evaluation-failed")
+            return
+        ws = [frac(w) for w in vec]
+        W = sum(ws)
+        for gi, w in enumerate(ws):
+            p = float(w / W)
+            if p > 1e-3:
+                continue
+            k = sum(1 for g in got if g == gi)
+            lo, hi = stats.binom_log_tails(k, n, p)
+            ctx.count("rare-group/tests")
+            ctx.nontrivial("rare", fam, offset, salt, tuple(vec), gi)
+            if min(lo, hi) < LOG_ALPHA:
+                ctx.violation("rare-group-share-off", dict(family=fam, offset=offset, salt=salt, weights=vec, n=n, group=gi, share=p,
+                                                           expected=round(n * p, 3), observed=k, log_p_lower=lo, log_p_upper=hi, text=text,
+                                                           seed=ctx.base_seed), mechanism="C04/proportions-off")
+                return
+
+
+def many_salts(ctx, im, rnd):
+    """several hundred realistic salts on the same 64 units (two groups 1:1): under independent salts two assignment vectors
+    coincide with probability 2^-64 per pair; salts folded into a small tag space (16 bits, first characters, length ...) collide"""
+    teams = ["pricing", "search", "checkout", "email", "onboarding", "growth", "ads", "recs"]
+    k = 600 if ctx.quick() else 2500  # per shard (each shard has its own salt list)
+    salts = ["%s_%s_v%d" % (rnd.choice(teams), rnd.choice(["btn", "copy", "rank", "flow", "s%d" % ctx.shard]), i) for i in range(k)]
+    units = [dict(uid=u) for u in list(range(1000, 1032)) + ["user-%d" % i for i in range(32)]]
+    seen = {}
+    for salt in salts:
+        text = program(["1", "1"], salt, ["uid"])
+        got, err = assign(im, text, units)
+        ctx.evaluated(len(units))
+        if got is None:
+            ctx.violation("evaluation-failed", dict(text=text, error=err), mechanism="C04/evaluation-failed")
+            return
+        sig = tuple(got)
+        other = seen.setdefault(sig, salt)
+        if other != salt:
+            ctx.violation("assignments-under-two-salts-identical", dict(salts=[other, salt], units=len(units), weights=["1", "1"],
+                                                                        identical_fraction=1.0), mechanism="C04/salts-not-independent")
+            return
+    ctx.count("many-salts/salts", len(salts))
+    ctx.count("many-salts/pairs-compared", len(salts) * (len(salts) - 1) // 2)
+    ctx.nontrivial("many-salts", ctx.shard, len(salts))
 
 
 def replay(ctx, kind, w):
@@ -204,6 +269,15 @@ def replay(ctx, kind, w):
 
     im = impl()
     rnd = random.Random(int(w.get("seed", 0)))
+    if kind == "assignments-under-two-salts-identical":
+        units = [dict(uid=u) for u in list(range(1000, 1032)) + ["user-%d" % i for i in range(32)]]
+        a, b = (assign(im, program(["1", "1"], s, ["uid"]), units)[0] for s in w["salts"])
+        if a is None or a == b:
+            ctx.violation(kind, dict(w), mechanism="C04/salts-not-independent")
+        return
+    if kind == "rare-group-share-off":
+        rare_groups(ctx, im, rnd, w["n"] // 5)
+        return
     pop = family(w["family"], rnd, w["n"], w["offset"])
     fields = sorted(pop[0])
     vec = w["weights"]
